@@ -3,7 +3,9 @@
 Generated programs (straight-line / if / for[-else] / with / try / trivial while, with logging
 calls in every operand position) x ANF configurations (default, spelled-out default, name-all,
 default with extra rules in front, random edge-pattern lists, name-every-operand-of-X,
-name-every-X, transform-nothing).  The original
+name-every-X, transform-nothing, near-miss rules - a field string next to a real field name (plural / truncated /
+re-cased / wrapper-node field / empty) or a type next to an occurring type (name prefix, sibling, pass-through
+wrapper) in front of a base configuration - and field-only rules followed by further rules).  The original
 source and the source unparsed from anf.transform's output are exec'd against a fresh logging
 runtime on the same inputs; an independent re-implementation of the docstring's first-match
 edge semantics checks the shape of the output.
@@ -39,7 +41,9 @@ RULE = ('programs from the constructive grammar in vf/c18.py (assign / chained /
         'local mapping, call result, nested display) as argument / keyword value / starred and ** argument / subscript base / '
         'compare operand / if test / for iterable / element, value or ** source of another display; lazy constructs and/or, '
         'if-expression, chained compare, lambda (also with keyword-only, defaulted, *args and **kwargs parameters), comprehension, '
-        'non-trivial while/assert) x configuration family x 2-3 inputs. One evaluation = one '
+        'non-trivial while/assert) x configuration family (default, explicit, name-all, default-plus, random rule lists, by-parent, '
+        'by-child, none, near_field / near_type = rules whose field string / type is a near miss of an edge of the grammar in front of a base '
+        'configuration, by_field = a rule constraining only the field followed by more rules) x 2-3 inputs. One evaluation = one '
         '(program, configuration) pair pushed through anf.transform and all oracle clauses. Non-trivial = the transformer accepted '
         'the program, some statement header holds >= 2 logging calls, some run logged >= 2 effects inside one statement segment '
         '(segments are delimited by mark(i) statements, present in ~40 % of the programs; the whole run otherwise), '
@@ -314,15 +318,32 @@ def build_config(cj):
   return out
 
 
-def asks(cj, parent, field, child):
-  """Own reading of the docstring: rules tested in order, first match governs, no match = leave."""
+def _loose_field(edge_field, rule_field):
+  """A sloppy field comparison (substring either way, case ignored): NOT the documented semantics; only used to
+  count the cases in which exact string equality is observably different from it."""
+  a, b = edge_field.lower(), rule_field.lower()
+  return a in b or b in a
+
+
+def _loose_type(node, spec):
+  """A sloppy type comparison (isinstance, or one class name a prefix of the other, case ignored): counting only."""
+  if isinstance(node, _types(spec)):
+    return True
+  a = type(node).__name__.lower()
+  return any(a.startswith(n.lower()) or n.lower().startswith(a) for n in spec)
+
+
+def asks(cj, parent, field, child, loose_field=False, loose_type=False):
+  """Own reading of the docstring: rules tested in order, first match governs, no match = leave.
+  Parent / child are checked with isinstance, the field name with string equality (the loose_* switches select the
+  sloppy comparisons above and are only used for the coverage counters, never by the oracle)."""
   for r in (DEFAULT_RULES if cj is None else cj):
     if not r.get('any'):
-      if r['p'] != 'ANY' and not isinstance(parent, _types(r['p'])):
+      if r['p'] != 'ANY' and not (_loose_type(parent, r['p']) if loose_type else isinstance(parent, _types(r['p']))):
         continue
-      if r['f'] != 'ANY' and field != r['f']:
+      if r['f'] != 'ANY' and not (_loose_field(field, r['f']) if loose_field else field == r['f']):
         continue
-      if r['c'] != 'ANY' and not isinstance(child, _types(r['c'])):
+      if r['c'] != 'ANY' and not (_loose_type(child, r['c']) if loose_type else isinstance(child, _types(r['c']))):
         continue
     return bool(MY_ACTIONS[r['a']](parent, field, child))
   return False
@@ -757,16 +778,88 @@ def run_case(case):
 # generators
 
 P_POOL = ['Call', 'BinOp', 'UnaryOp', 'Compare', 'Attribute', 'Subscript', 'Tuple', 'List', 'Set', 'Dict', 'Return',
-          'Raise', 'If', 'For', 'With', 'BoolOp', 'IfExp', 'Lambda', 'expr', 'stmt']
+          'Raise', 'If', 'For', 'With', 'BoolOp', 'IfExp', 'Lambda', 'expr', 'stmt', 'ListComp', 'Starred', 'keyword']
 C_POOL = ['Call', 'BinOp', 'UnaryOp', 'Compare', 'Attribute', 'Subscript', 'Tuple', 'List', 'Set', 'Dict', 'Constant',
-          'Name', 'BoolOp', 'IfExp', 'Lambda', 'Slice', 'expr']
+          'Name', 'BoolOp', 'IfExp', 'Lambda', 'Slice', 'expr', 'ListComp', 'SetComp', 'DictComp', 'Starred']
 PURE_C = ['BinOp', 'UnaryOp', 'Compare', 'Attribute', 'Subscript', 'Tuple', 'List', 'Set', 'Dict', 'Slice']
 F_POOL = ['func', 'args', 'keywords', 'value', 'slice', 'left', 'right', 'operand', 'comparators', 'elts', 'keys',
           'values', 'test', 'iter', 'items', 'exc', 'cause', 'body', 'orelse']
 _NON_OPERAND_FIELDS = ('ctx', 'op', 'ops', 'attr', 'id', 'targets', 'target', 'type_comment', 'handlers', 'finalbody',
                        'args_', 'name', 'kind')
 FAMILIES = (['default'] * 8 + ['default_explicit'] + ['all_expr'] * 2 + ['default_plus'] * 4 + ['partial'] * 6 + ['none'] +
-            ['by_parent'] * 5 + ['by_child'] * 2)
+            ['by_parent'] * 5 + ['by_child'] * 2 + ['near_field'] * 4 + ['near_type'] * 3 + ['by_field'] * 3)
+
+# ---- near-miss rules: rules that sit next to an edge of the program without matching it
+# field names under which operand edges are presented to the configuration
+OPERAND_FIELDS = ['func', 'args', 'keywords', 'value', 'value', 'slice', 'left', 'right', 'operand', 'comparators', 'elts',
+                  'keys', 'values', 'values', 'test', 'iter', 'items', 'exc', 'cause', 'body', 'orelse', 'msg']
+# fields of the pass-through wrapper nodes (Starred / keyword / Slice / withitem): their children are presented under the
+# field of the wrapper itself (Call.args, Call.keywords, Subscript.slice, With.items), never under these names
+WRAPPER_FIELDS = ['lower', 'upper', 'step', 'context_expr', 'optional_vars', 'arg']
+FIELD_VARIANTS = ['plural', 'plural', 'drop_last', 'drop_last', 'drop_first', 'underscore_prefix', 'underscore_suffix',
+                  'capitalised', 'upper_case', 'first_half', 'doubled', 'wrapper_field', 'empty']
+
+
+def field_variant(kind, f, k=0):
+  """A string that is not f but close to it (it may coincide with ANOTHER real field: value/values, key/keys ...)."""
+  if kind == 'plural':
+    return f + 's'
+  if kind == 'drop_last':
+    return f[:-1]
+  if kind == 'drop_first':
+    return f[1:]
+  if kind == 'underscore_prefix':
+    return '_' + f
+  if kind == 'underscore_suffix':
+    return f + '_'
+  if kind == 'capitalised':
+    return f.capitalize()
+  if kind == 'upper_case':
+    return f.upper()
+  if kind == 'first_half':
+    return f[:max(1, len(f) // 2)]
+  if kind == 'doubled':
+    return f + f
+  if kind == 'wrapper_field':
+    return WRAPPER_FIELDS[k % len(WRAPPER_FIELDS)]
+  return ''
+
+
+_AST_CLASSES = sorted(n for n in dir(ast) if not n.startswith('_') and n != 'AST' and isinstance(getattr(ast, n), type) and
+                      issubclass(getattr(ast, n), ast.AST))
+# node types the grammar produces in parent / child position of an operand edge
+OCCURRING_TYPES = ['Call', 'BinOp', 'UnaryOp', 'Compare', 'Attribute', 'Subscript', 'Tuple', 'List', 'Set', 'Dict', 'Return',
+                   'Raise', 'If', 'For', 'With', 'BoolOp', 'IfExp', 'Lambda', 'Constant', 'Name']
+# pass-through wrappers (never a parent, never asked about as a child) and non-expression node kinds
+WRAPPER_TYPES = ['Starred', 'keyword', 'Slice', 'withitem', 'expr_context', 'operator', 'cmpop', 'unaryop', 'Load', 'arguments',
+                 'comprehension', 'Expr', 'Assign']
+
+
+def type_neighbours(t):
+  """Other AST classes whose name starts with t's name or is a prefix of it (case ignored): List/ListComp, If/IfExp,
+  Subscript/Sub, With/withitem, For/FormattedValue, UnaryOp/unaryop ... None of them is a base or subclass of t."""
+  a = t.lower()
+  cls = getattr(ast, t)
+  out = []
+  for n in _AST_CLASSES:
+    if n != t and (n.lower().startswith(a) or a.startswith(n.lower())):
+      other = getattr(ast, n)
+      if not issubclass(cls, other) and not issubclass(other, cls):
+        out.append(n)
+  return out
+
+
+TYPE_NEIGHBOURS = {t: type_neighbours(t) for t in OCCURRING_TYPES}
+# types of the same kind that the grammar produces as well: a rule about one must not catch the other
+TYPE_SIBLINGS = {'BinOp': ['BoolOp', 'UnaryOp', 'Compare'], 'UnaryOp': ['BinOp'], 'BoolOp': ['BinOp', 'IfExp'], 'Compare': ['BinOp'],
+                 'Tuple': ['List', 'Set'], 'List': ['Tuple', 'Set'], 'Set': ['Dict', 'List'], 'Dict': ['Set'],
+                 'Attribute': ['Subscript', 'Name'], 'Subscript': ['Attribute'], 'Call': ['Attribute', 'Lambda'], 'Lambda': ['Call'],
+                 'Return': ['Raise', 'Expr'], 'Raise': ['Return'], 'If': ['While', 'For'], 'For': ['While', 'If'], 'With': ['Try', 'For'],
+                 'IfExp': ['BoolOp'], 'Constant': ['Name'], 'Name': ['Constant']}
+
+
+def _owners(f):
+  return [t for t in P_POOL if t not in ('expr', 'stmt') and f in getattr(ast, t)._fields]
 BY_PARENT = ['Call'] * 6 + ['BinOp', 'BinOp', 'Subscript', 'Attribute', 'Attribute', 'Compare', 'Tuple', 'List', 'Dict',
                             'UnaryOp', 'Return', 'If', 'For', 'With', 'BoolOp', 'IfExp']
 
@@ -787,6 +880,9 @@ def rules(draw, child_pool=None, actions=None):
       f = draw(st.sampled_from(own or F_POOL))
     else:
       f = draw(st.sampled_from(F_POOL))
+    if draw(st.integers(0, 9)) < 2:
+      # a string next to the field name (it then names another field or none at all)
+      f = field_variant(draw(st.sampled_from(FIELD_VARIANTS)), f, draw(st.integers(0, len(WRAPPER_FIELDS) - 1)))
   c = 'ANY'
   pool = child_pool or C_POOL
   if child_pool or draw(st.integers(0, 9)) < 7:
@@ -801,19 +897,100 @@ def rules(draw, child_pool=None, actions=None):
 def configs(draw):
   fam = draw(st.sampled_from(FAMILIES))
   if fam == 'default':
-    return fam, None
+    return fam, None, []
   if fam == 'default_explicit':
-    return fam, [dict(r) for r in DEFAULT_RULES]
+    return fam, [dict(r) for r in DEFAULT_RULES], []
   if fam == 'all_expr':
-    return fam, [{'p': 'ANY', 'f': 'ANY', 'c': ['expr'], 'a': 'REPLACE'}]
+    return fam, [{'p': 'ANY', 'f': 'ANY', 'c': ['expr'], 'a': 'REPLACE'}], []
   if fam == 'none':
-    return fam, [{'any': True, 'a': 'LEAVE'}]
+    return fam, [{'any': True, 'a': 'LEAVE'}], []
   if fam == 'by_parent':
     # "name every operand of X" (the shape of the docstring's and the unit tests' examples)
     return fam, [{'p': [draw(st.sampled_from(BY_PARENT))], 'f': 'ANY', 'c': draw(st.sampled_from(['ANY', ['expr']])),
-                  'a': 'REPLACE'}]
+                  'a': 'REPLACE'}], []
   if fam == 'by_child':
-    return fam, [{'p': 'ANY', 'f': 'ANY', 'c': [draw(st.sampled_from(PURE_C + ['Call', 'Call', 'Constant']))], 'a': 'REPLACE'}]
+    return fam, [{'p': 'ANY', 'f': 'ANY', 'c': [draw(st.sampled_from(PURE_C + ['Call', 'Call', 'Constant']))], 'a': 'REPLACE'}], []
+  if fam in ('near_field', 'near_type'):
+    # one or two near-miss rules in front of a base configuration; their directive is (mostly) the opposite of what the
+    # base says about the edges they sit next to, so that a rule matching too much is visible
+    base_kind = draw(st.sampled_from(['default'] * 5 + ['all_expr'] * 2 + ['empty'] * 2 + ['by_parent', 'leave_all']))
+    if base_kind == 'default':
+      base = [dict(r) for r in DEFAULT_RULES]
+    elif base_kind == 'all_expr':
+      base = [{'p': 'ANY', 'f': 'ANY', 'c': ['expr'], 'a': 'REPLACE'}]
+    elif base_kind == 'by_parent':
+      base = [{'p': [draw(st.sampled_from(BY_PARENT))], 'f': 'ANY', 'c': 'ANY', 'a': 'REPLACE'}]
+    elif base_kind == 'leave_all':
+      base = [{'any': True, 'a': 'LEAVE'}]
+    else:
+      base = []
+    naming = base_kind in ('default', 'all_expr', 'by_parent')
+    pre = []
+    tags = ['near_base=' + base_kind]
+    for _ in range(draw(st.integers(1, 2))):
+      act = 'LEAVE' if naming else 'REPLACE'
+      if draw(st.integers(0, 9)) < 2:
+        act = 'REPLACE' if naming else 'LEAVE'
+      if fam == 'near_field':
+        f = draw(st.sampled_from(OPERAND_FIELDS))
+        kind = draw(st.sampled_from(FIELD_VARIANTS))
+        nf = field_variant(kind, f, draw(st.integers(0, len(WRAPPER_FIELDS) - 1)))
+        if nf == 'ANY':
+          nf = 'any'
+        p = 'ANY'
+        own = _owners(f)
+        if own and draw(st.integers(0, 9)) < 3:
+          p = [draw(st.sampled_from(own))]
+        c = draw(st.sampled_from(['ANY', 'ANY', ['expr'], ['Call'], ['Call', 'Attribute', 'Subscript']]))
+        pre.append({'p': p, 'f': nf, 'c': c, 'a': act})
+        tags.append('near_field_rule=' + kind + ('(a_real_field)' if nf in F_POOL or nf in OPERAND_FIELDS else ''))
+      else:
+        t = draw(st.sampled_from(OCCURRING_TYPES + [x for x in OCCURRING_TYPES if TYPE_NEIGHBOURS[x]]))
+        form = draw(st.sampled_from(['name_neighbour'] * 3 + ['sibling'] * 2 + ['wrapper']))
+        if form == 'name_neighbour' and not TYPE_NEIGHBOURS[t]:
+          form = 'sibling'
+        if form == 'name_neighbour':
+          u = draw(st.sampled_from(TYPE_NEIGHBOURS[t]))
+        elif form == 'sibling':
+          u = draw(st.sampled_from(TYPE_SIBLINGS[t]))
+        else:
+          u = draw(st.sampled_from(WRAPPER_TYPES))
+        slot = draw(st.sampled_from(['p', 'c'] if t not in ('Return', 'Raise', 'If', 'For', 'With', 'Constant', 'Name') else
+                                    (['c'] if t in ('Constant', 'Name') else ['p'])))
+        r = {'p': 'ANY', 'f': 'ANY', 'c': 'ANY', 'a': act}
+        r[slot] = [u]
+        other = 'c' if slot == 'p' else 'p'
+        if draw(st.integers(0, 9)) < 3:
+          r[other] = ['expr'] if other == 'c' else [draw(st.sampled_from(P_POOL))]
+        if slot == 'p' and draw(st.integers(0, 9)) < 3:
+          own = [x for x in getattr(ast, t)._fields if x in F_POOL]
+          if own:
+            r['f'] = draw(st.sampled_from(own))
+        pre.append(r)
+        tags.append('near_type_rule=%s_as_%s' % (form, 'parent' if slot == 'p' else 'child'))
+    if draw(st.integers(0, 9)) < 2:
+      # an exact rule of the ordinary kind between / before the near-miss rules
+      pre.insert(draw(st.integers(0, len(pre))), draw(rules()))
+      tags.append('near_with_ordinary_rule')
+    return fam, pre + base, tags
+  if fam == 'by_field':
+    # "name (or leave) everything that hangs under field F", parent and child unconstrained, followed by further rules
+    # that must stay reachable for every other field
+    f = draw(st.sampled_from(OPERAND_FIELDS))
+    first = {'p': 'ANY', 'f': f, 'c': 'ANY', 'a': draw(st.sampled_from(['REPLACE', 'REPLACE', 'LEAVE']))}
+    tail_kind = draw(st.sampled_from(['default', 'default', 'all_expr', 'rules', 'rules', 'by_field', 'last']))
+    if tail_kind == 'default':
+      tail = [dict(r) for r in DEFAULT_RULES]
+    elif tail_kind == 'all_expr':
+      tail = [{'p': 'ANY', 'f': 'ANY', 'c': ['expr'], 'a': 'REPLACE'}]
+    elif tail_kind == 'rules':
+      tail = [draw(rules()) for _ in range(draw(st.integers(1, 3)))]
+    elif tail_kind == 'by_field':
+      tail = [{'p': 'ANY', 'f': draw(st.sampled_from(OPERAND_FIELDS)), 'c': draw(st.sampled_from(['ANY', ['Call'], ['expr']])),
+               'a': 'REPLACE'} for _ in range(draw(st.integers(1, 2)))]
+    else:
+      tail = []
+    return fam, [first] + tail, ['by_field_tail=' + tail_kind]
   if fam == 'default_plus':
     pre = []
     for _ in range(draw(st.integers(1, 3))):
@@ -821,8 +998,8 @@ def configs(draw):
         pre.append(draw(rules(child_pool=PURE_C, actions=['LEAVE'])))
       else:
         pre.append(draw(rules(child_pool=['Constant'], actions=['REPLACE'])))
-    return fam, pre + [dict(r) for r in DEFAULT_RULES]
-  return fam, [draw(rules()) for _ in range(draw(st.integers(1, 4)))]
+    return fam, pre + [dict(r) for r in DEFAULT_RULES], []
+  return fam, [draw(rules()) for _ in range(draw(st.integers(1, 4)))], []
 
 
 _INT_STRATS = {}
@@ -859,7 +1036,7 @@ class Gen(object):
       # lambdas (mostly with a trivial body, which these configurations accept and name) with non-trivial parameter lists
       self.lazy.add('lam')
     self.markers = draw(st.integers(0, 99)) < 40
-    self.keep_order_shapes = family in ('partial', 'none', 'by_parent', 'by_child') or draw(st.integers(0, 99)) < 12
+    self.keep_order_shapes = family in ('partial', 'none', 'by_parent', 'by_child', 'by_field') or draw(st.integers(0, 99)) < 12
     self.slices_ok = True   # F15 fixed: plain slices are handled under every configuration
     # mapping-valued locals m (int keys) / ms (str keys), bound by plain assignments in the prelude (never lifted):
     # sources for the ** entries of dict displays and for ** call arguments
@@ -1301,12 +1478,12 @@ INPUTS = [[0, 0], [0, 1], [1, 0], [2, 3], [3, 1]]
 
 @st.composite
 def cases(draw, params):
-  fam, cj = draw(configs())
+  fam, cj, tags = draw(configs())
   g = Gen(draw, fam, cj, params)
   src = g.program()
   inputs = draw(st.lists(st.sampled_from(INPUTS), min_size=2, max_size=3, unique_by=lambda x: tuple(x)))
   return {'case': {'src': src, 'inputs': inputs, 'config': cj}, 'family': fam, 'excluded': dict(g.excluded),
-          'markers': g.markers, 'kept': g.keep_order_shapes, 'maps': g.maps}
+          'markers': g.markers, 'kept': g.keep_order_shapes, 'maps': g.maps, 'cfg_tags': tags}
 
 
 # ================================================================================================
@@ -1420,6 +1597,52 @@ def named_none_entries(tree, cj):
   return out
 
 
+_REAL_FIELDS = set(f for n in _AST_CLASSES for f in getattr(ast, n)._fields)
+
+
+def config_classes(tree, cj):
+  """Coverage labels about the rule list itself and about how close it comes to the edges of the program."""
+  out = set()
+  if cj is None:
+    return out
+  specific = [r for r in cj if not r.get('any')]
+  for i, r in enumerate(specific):
+    if r['f'] != 'ANY':
+      out.add('rule_field:' + ('names_an_operand_field' if r['f'] in OPERAND_FIELDS else
+                               'names_a_non_operand_ast_field' if r['f'] in _REAL_FIELDS else 'names_no_ast_field'))
+      if r['p'] == 'ANY' and r['c'] == 'ANY' and r is not cj[-1]:
+        out.add('rule_with_only_a_field_followed_by_more_rules')
+    for slot in ('p', 'c'):
+      if r[slot] != 'ANY' and any(n in WRAPPER_TYPES or n in ('ListComp', 'SetComp', 'DictComp') or
+                                  not issubclass(getattr(ast, n), (ast.expr, ast.stmt)) for n in r[slot]):
+        out.add('rule_type:wrapper_or_non_operand_type_as_' + ('parent' if slot == 'p' else 'child'))
+  lf = lt = 0
+  pairs = set()
+  for p in ast.walk(tree):
+    for e in operand_edges(p):
+      if _is_trivially_exempt(e[2]):
+        continue
+      try:
+        exact = asks(cj, *e)
+        if asks(cj, *e, loose_field=True) != exact:
+          lf += 1
+          for r in specific:
+            if r['f'] != 'ANY' and r['f'] != e[1] and _loose_field(e[1], r['f']):
+              pairs.add('rule_field_is_empty' if not r['f'] else 'rule_field_contains_edge_field' if e[1] in r['f'] else
+                        'edge_field_contains_rule_field' if r['f'] in e[1] else 'fields_differ_in_case')
+        if asks(cj, *e, loose_type=True) != exact:
+          lt += 1
+      except Exception:
+        pass
+  if lf:
+    out.add('exact_field_equality_observable')   # some edge is decided differently by a substring / case-blind comparison
+    for x in sorted(pairs):
+      out.add('exact_field_equality_observable:' + x)
+  if lt:
+    out.add('isinstance_vs_type_name_prefix_observable')
+  return out
+
+
 def shard(ctx, acc):
   b = ctx.budget
   n = ctx.share('programs')
@@ -1441,6 +1664,8 @@ def shard(ctx, acc):
       classes.extend(sorted(structure(tree0)))
       for w in sorted(named_none_entries(tree0, case['config'])):
         classes.append('named_subtree_with_None_list_entry:' + w)
+      classes.extend(sorted(config_classes(tree0, case['config'])))
+      classes.extend(g.get('cfg_tags') or [])
     for k in info['lazy']:
       classes.append('lazy:' + k + (':accepted' if info['accepted'] else ':rejected'))
     if g['markers']:
